@@ -145,6 +145,46 @@ macro_rules! harnesses {
     };
 }
 
+/// Native oracle for "every owned allocation is released exactly once, as it was allocated": the size of every block is kept in a
+/// header; a dealloc / realloc whose layout does not match, or of a block that is not live, is recorded (CBMC reports these as failed
+/// `rust_dealloc` / `free` checks; glibc would not notice).
+#[cfg(not(kani))]
+pub mod checkalloc {
+    use std::alloc::{GlobalAlloc, Layout, System};
+    use std::sync::atomic::{AtomicBool, Ordering};
+    pub static MISMATCH: AtomicBool = AtomicBool::new(false);
+    const MAGIC: usize = 0x5afe_a110c;
+    const DEAD: usize = 0xdead_a110c;
+    const HDR: usize = 32;
+    pub struct CheckAlloc;
+    unsafe impl GlobalAlloc for CheckAlloc {
+        unsafe fn alloc(&self, l: Layout) -> *mut u8 {
+            let align = l.align().max(16);
+            let hdr = HDR.max(align);
+            let p = System.alloc(Layout::from_size_align_unchecked(l.size() + hdr, align));
+            if p.is_null() { return p; }
+            let q = p.add(hdr);
+            *(q.sub(8) as *mut usize) = l.size();
+            *(q.sub(16) as *mut usize) = MAGIC;
+            *(q.sub(24) as *mut usize) = l.align();
+            q
+        }
+        unsafe fn dealloc(&self, q: *mut u8, l: Layout) {
+            let magic = *(q.sub(16) as *mut usize);
+            let size = *(q.sub(8) as *mut usize);
+            let al = *(q.sub(24) as *mut usize);
+            if magic != MAGIC || size != l.size() || al != l.align() {
+                MISMATCH.store(true, Ordering::SeqCst);
+                if magic != MAGIC { return; }          // not a live block of ours (double free / foreign pointer): leak it rather than corrupt the heap
+            }
+            *(q.sub(16) as *mut usize) = DEAD;
+            let align = al.max(16);
+            let hdr = HDR.max(align);
+            System.dealloc(q.sub(hdr), Layout::from_size_align_unchecked(size + hdr, align));
+        }
+    }
+}
+
 /// Native replay driver: `replay <harness> <vals-file>`; vals-file has one hex string per line.
 #[cfg(not(kani))]
 pub fn replay_main(tables: &[&[(&str, fn())]]) -> ! {
@@ -182,8 +222,9 @@ pub fn replay_main(tables: &[&[(&str, fn())]]) -> ! {
                 }
             }
         }
-        println!("RANDOM: ok={} assumption-skipped={} failed={} first_failure={:?}", ok, skipped, failed, first);
-        std::process::exit(if failed > 0 { 1 } else { 0 });
+        let mismatch = checkalloc::MISMATCH.load(std::sync::atomic::Ordering::SeqCst);
+        println!("RANDOM: ok={} assumption-skipped={} failed={} first_failure={:?} allocator_layout_mismatch={}", ok, skipped, failed, first, mismatch);
+        std::process::exit(if failed > 0 || mismatch { 1 } else { 0 });
     }
     let txt = std::fs::read_to_string(&args[2]).expect("vals file");
     let mut vals = Vec::new();
@@ -201,6 +242,11 @@ pub fn replay_main(tables: &[&[(&str, fn())]]) -> ! {
     }
     load(vals);
     let r = std::panic::catch_unwind(f);
+    #[cfg(not(kani))]
+    if checkalloc::MISMATCH.load(std::sync::atomic::Ordering::SeqCst) {
+        println!("REPLAY: an allocation was released with a layout that does not match its allocation, or twice (REPRODUCED: memory-safety check of the checking allocator)");
+        std::process::exit(1);
+    }
     match r {
         Ok(()) => {
             println!("REPLAY: harness returned normally (NOT reproduced)");
